@@ -20,7 +20,11 @@ body_compat row_compat row_proj tyC_struct tyC_enum tyC_vec tyC_option_some tyC_
 spec_valid specFields_valid specVars_valid skip_encTy skip_frame skip_piece assemble_total fieldsFit_of_frame
 stepC_piece stepC_gap reader_val_eq projFields_find assemble_ok""".split()]
 PACKAGES = ["dgen"]
-prepare = base.prepare
+def prepare(seed, tier):
+    base.ID_FOR_ATTRS[0] = False          # the attribute front-end stream belongs to C08
+    base.prepare(seed, tier)
+
+
 RULE = ("dcompat <writer type> <value> <reader type>: chains of type versions produced by sequences of the documented compatible edits (add an optional "
         "field at a new index / at a gap index, drop an optional field (its index is retired), add a variant to an enum that occurs as an Option field, "
         "turn a unit variant into a tuple / struct variant with optional fields; edits are applied at any nesting depth: struct bodies, variant bodies, "
